@@ -175,10 +175,12 @@ func (monC06) TaskEnd(s *Sim, t *Task) {
 				}
 				// any container counts (a pod may have one container crash-looping and another still creating)
 				anyCannot, anyCreating := false, false
-				for _, cs := range p.Status.ContainerStatuses {
-					if cs.State.Waiting != nil {
-						anyCannot = anyCannot || cannotStartSet[cs.State.Waiting.Reason]
-						anyCreating = anyCreating || cs.State.Waiting.Reason == "ContainerCreating"
+				for _, list := range [][]corev1.ContainerStatus{p.Status.ContainerStatuses, p.Status.InitContainerStatuses, p.Status.EphemeralContainerStatuses} {
+					for _, cs := range list {
+						if cs.State.Waiting != nil {
+							anyCannot = anyCannot || cannotStartSet[cs.State.Waiting.Reason]
+							anyCreating = anyCreating || cs.State.Waiting.Reason == "ContainerCreating"
+						}
 					}
 				}
 				slow := ap.MaxSlowStartDuration
